@@ -555,7 +555,7 @@ func TestC22(t *testing.T) {
 	r.Assume("what the backend receives is Gate's own encoding of each written packet, decoded by the independent ref/chatwire decoder")
 	r.Assume("the expected class comes from a reference walker over the generated tree that shares no code with brigodier")
 
-	n := r.N(6000, 300000)
+	n := r.N(6000, 1200000)
 	perTree := 25
 	nTrees := (n + perTree - 1) / perTree
 	master := r.Rng("trees")
